@@ -1284,6 +1284,19 @@ def _consumption_nest_closure_form(ctx, gauss, gv):
                 % (zero, const_d, store_ok, ret_vec, outer_ok, collected))
 
 
+def is_all_edges(e):
+    """the sequence 0, 1, …, E−1 in this order: the range itself, or a list whose k-th element is k"""
+    if not (isinstance(e, Arr) and e.classes == ("E",)):
+        return False
+    if e.name == "range":
+        return True
+    try:
+        v = e.at("§id")
+    except Exception:
+        return False
+    return isinstance(v, Num) and (v.ent == "§id" or v.expr == Expr.leaf("$ix", "§id"))
+
+
 def dimension_formula(ctx):
     """get_dimension() as a formula (kernel engine): evaluates the callee of the public getter."""
     R = ctx.roles
@@ -1296,7 +1309,7 @@ def dimension_formula(ctx):
 
     def loops_hook(I, c, args):
         edges = args[1] if len(args) > 1 else None
-        if isinstance(edges, Arr) and edges.classes == ("E",) and edges.name in ("range", "map"):
+        if isinstance(edges, Arr) and edges.classes == ("E",) and (edges.name in ("range", "map") or is_all_edges(edges)):
             return num_size("L")
         return Num(Expr.atom(("call", "loops", "?")))
     hooks = {idroles.graph_roles(ctx)["loopnum"].path: loops_hook}
@@ -1838,7 +1851,7 @@ def graph_hooks(ctx, seen):
     def loops_hook(I, c, a):
         e = a[1]
         seen.setdefault("loops", []).append(e.classes[0] if isinstance(e, Arr) else None)
-        if isinstance(e, Arr) and e.classes == ("E",) and e.name == "range":
+        if is_all_edges(e):
             return num_size("L")
         if isinstance(e, Arr):
             return Num(Expr.atom(("call", "loops", str(e.classes[0]))))
